@@ -201,6 +201,7 @@ class RealSession:
         self.log = ""
         self.unsupported = None
         self.chunk = chunk
+        self.strict = strict
         self.st = State(max_instr, strict)
         if isinstance(src, str):
             src = src.encode("latin-1")
@@ -216,6 +217,10 @@ class RealSession:
 
     def close(self):
         self.st.close()
+
+    def set_limit(self, max_instr):
+        """instruction limit of the following dissect() calls (0 = none)"""
+        self.st.call("__ws_config(%d, %s)" % (max_instr, "true" if self.strict else "false"), 0)
 
     def api_notes(self):
         r = self.st.call("return __ws_notes()")
